@@ -59,7 +59,8 @@ def run_case(rs, ctx):
     cfg = {"arms": list(gen.LABELS[labels][:n_arms]), "labels": labels, "lp": lp, "np": {"kind": "none"},
            "seed": int(rs.integers(10 ** 6)), "n_jobs": int(gen.pick(rs, [1, 1, 2])), "backend": None}
     arms = list(cfg["arms"])
-    n_chunks = 1 if scale else int(rs.integers(1, 5))
+    huge = ctx.index % 150 == 7  # a few cases with a very long single batch (more rows per arm than any internal slice size)
+    n_chunks = 1 if (scale or huge) else int(rs.integers(1, 5))
     ops = []
     # one arm stays without rows for the first `late_from` training calls (possibly for ever): its first observations
     # then arrive through partial_fit, often one row at a time
@@ -67,9 +68,14 @@ def run_case(rs, ctx):
     late_from = int(rs.integers(1, 6))
     for c in range(n_chunks):
         n = 1 if (c and rs.integers(3) == 0) else int(rs.integers(1 if c else max(2, d), 14))
+        if huge:
+            n = int(rs.integers(140000, 200000))
         pool = [a for a in arms if a != zero_arm or c >= late_from] or arms
         dd = [pool[int(i)] for i in rs.integers(0, len(pool), n)]
-        X = rs.normal(1, 2, (n, d)).tolist()
+        X = rs.normal(1, 2, (n, d))
+        if huge:
+            X = X + np.linspace(0, 3, n)[:, None]  # not identically distributed along the batch
+        X = X.tolist()
         y = rs.normal(0, 3, n).tolist()
         ops.append({"op": "fit" if c == 0 else "partial_fit", "d": dd, "r": y, "X": X})
         if c == 0 and rs.integers(3) == 0 and len(arms) < 6:
